@@ -60,11 +60,20 @@ structure UType where
   siTarget : List Nat
   strictIp : Bool
   strictSi : Bool
+  /-- per formula: does it do arithmetic on `value` (false for the bare `return value`)?  Only used
+      by the model of non-numeric values (`legRaw`): a bare `return value` lets a string through. -/
+  toBaseArith : List Bool := []
+  fromBaseArith : List Bool := []
 
 /-- Position of the first occurrence of `u`. -/
 def findIdx (u : String) : List String → Option Nat
   | [] => none
   | a :: as => if a = u then some 0 else (findIdx u as).map (· + 1)
+
+/-- No unit string is listed twice. -/
+def noDup : List String → Bool
+  | [] => true
+  | a :: as => !as.contains a && noDup as
 
 namespace UType
 
@@ -128,35 +137,39 @@ def aboveMax (x : Rat) : Bound → Bool
   | .negInf => true
   | _ => false
 
+/-- The loop of `is_in_range`: no value below the lower or above the upper limit. -/
+def rangeCheck (lo hi : Bound) (values : List Rat) : Bool :=
+  values.all fun v => !(belowMin v lo || aboveMax v hi)
+
 /-- `is_in_range(values, unit, raise_exception=False)`; `unit = none` is Python's `None`.
     `error value` = the unit is not listed.  (With `raise_exception=True` a `false` result is
-    the ValueError instead; the driver prints that variant as well.) -/
+    the ValueError instead; the driver prints that variant as well.)  For a unit other than
+    `units[0]` both limits are converted with the formula `_<units[0]>_to_<unit>`. -/
 def isInRange (T : UType) (values : List Rat) (unit : Option String) : Except Err Bool :=
-  let check (lo hi : Bound) : Bool := values.all fun v => !(belowMin v lo || aboveMax v hi)
   match unit with
-  | none => pure (check T.min T.max)
+  | none => .ok (rangeCheck T.min T.max values)
   | some u =>
-    if u = T.units.getD 0 "" then pure (check T.min T.max)
+    if u = T.units.getD 0 "" then .ok (rangeCheck T.min T.max values)
     else match T.idx? u with
-      | none => throw Err.value
+      | none => .error Err.value
       | some j => match T.fromBase[j]? with
-        | none => throw Err.attr
-        | some f => pure (check (convBound f T.min) (convBound f T.max))
+        | none => .error Err.attr
+        | some f => .ok (rangeCheck (convBound f T.min) (convBound f T.max) values)
 
 /-- `to_ip` / `to_si` through the regenerated target map. -/
 def toSys (T : UType) (targets : List Nat) (strict : Bool) (values : List Rat) (fromUnit : String) :
     Except Err (List Rat × String) :=
   match T.idx? fromUnit with
-  | none => if strict then throw Err.value else pure (values, fromUnit)
+  | none => if strict then .error Err.value else .ok (values, fromUnit)
   | some i =>
     match targets[i]? with
-    | none => throw Err.attr
+    | none => .error Err.attr
     | some j =>
-      if j = i then pure (values, fromUnit)
-      else do
-        let tgt := T.units.getD j ""
-        let v ← T.toUnit values tgt fromUnit
-        pure (v, tgt)
+      if j = i then .ok (values, fromUnit)
+      else
+        match T.toUnit values (T.units.getD j "") fromUnit with
+        | .error e => .error e
+        | .ok v => .ok (v, T.units.getD j "")
 
 def toIp (T : UType) := T.toSys T.ipTarget T.strictIp
 def toSi (T : UType) := T.toSys T.siTarget T.strictSi
@@ -197,6 +210,7 @@ namespace UType
 def wf (T : UType) : Bool :=
   T.baseIdx == 0 && decide (0 < T.n) && T.toBase.length == T.n
     && T.fromBase.length == T.n && T.ipTarget.length == T.n && T.siTarget.length == T.n
+    && noDup T.units
 
 /-- One target map lands in `sys`, is idempotent, and leaves units of `sys` alone. -/
 def targetOk (T : UType) (targets : List Nat) (sys : List String) : Bool :=
@@ -303,5 +317,175 @@ def toIpCopy (c : Coll) : Except Err Coll := c.convIp
 def toSiCopy (c : Coll) : Except Err Coll := c.convSi
 
 end Coll
+
+/-! ### Area normalisation and time aggregation of collections (`_datacollectionbase.py`) -/
+
+/-- The tables these methods consult (all regenerated from the source). -/
+structure Reg where
+  types : List UType
+  normalized : List (String × String)
+  timeAgg : List (String × String × Rat)
+  ancestors : List (String × List String)
+  baseNames : List String
+
+inductive Err2 where
+  | assert | zero | value | attr
+  deriving DecidableEq, Repr
+
+namespace Reg
+
+def find (R : Reg) (name : String) : Option UType := R.types.find? (·.name = name)
+
+def ancestorsOf (R : Reg) (name : String) : List String := (R.ancestors.lookup name).getD [name]
+
+/-- Unit label after `normalize_by_area`: `u/a`, or `u-a` when `u` already has a `/`. -/
+def normUnit (unit areaUnit : String) : String :=
+  if unit.contains '/' then unit ++ "-" ++ areaUnit else unit ++ "/" ++ areaUnit
+
+/-- Unit label after `aggregate_by_area`: drop `/a`, or `-a` when the part after the last `/` has a `-`. -/
+def aggUnit (unit areaUnit : String) : String :=
+  let last := (unit.splitOn "/").getLast?.getD ""
+  if last.contains '-' then unit.replace ("-" ++ areaUnit) "" else unit.replace ("/" ++ areaUnit) ""
+
+def liftErr : Err → Err2
+  | .value => .value
+  | .attr => .attr
+
+/-- `normalize_by_area(area, area_unit)`. -/
+def normalizeByArea (R : Reg) (c : Coll) (area : Rat) (areaUnit : String) : Except Err2 Coll :=
+  match R.normalized.lookup c.T.name with
+  | none => .error .assert
+  | some nt =>
+    if area = 0 then .error .zero
+    else match R.find nt with
+      | none => .error .attr
+      | some T' =>
+        let u := normUnit c.unit areaUnit
+        if T'.acceptable u then .ok { c with T := T', unit := u, values := c.values.map (· / area) }
+        else .error .value
+
+/-- The class `aggregate_by_area` goes back to: the base type whose `_normalized_type` is exactly the class at
+    hand, else the first base type (sorted) whose `_normalized_type` is an ancestor of it. -/
+def aggTarget (R : Reg) (name : String) : Option String :=
+  match R.baseNames.find? (fun b => R.normalized.lookup b == some name) with
+  | some b => some b
+  | none => R.baseNames.find? fun b =>
+      match R.normalized.lookup b with
+      | some nt => (R.ancestorsOf name).contains nt
+      | none => false
+
+/-- `aggregate_by_area(area, area_unit)`. -/
+def aggregateByArea (R : Reg) (c : Coll) (area : Rat) (areaUnit : String) : Except Err2 Coll :=
+  match R.aggTarget c.T.name with
+  | none => .error .value
+  | some b =>
+    match R.find b with
+    | none => .error .attr
+    | some T' =>
+      let u := aggUnit c.unit areaUnit
+      if T'.acceptable u then .ok { c with T := T', unit := u, values := c.values.map (· * area) }
+      else .error .value
+
+/-- `_time_aggregated_collection(timestep)`: to the first unit, times `factor / timestep`, relabelled with the
+    aggregated type and its first unit. -/
+def timeAggregated (R : Reg) (c : Coll) (timestep : Rat) : Except Err2 Coll :=
+  match R.timeAgg.lookup c.T.name with
+  | none => .error .assert
+  | some (tt, f) =>
+    match c.toUnitCopy (c.T.units.getD 0 "") with
+    | .error e => .error (liftErr e)
+    | .ok c1 =>
+      match R.find tt with
+      | none => .error .attr
+      | some T' => .ok { c1 with T := T', unit := T'.units.getD 0 "",
+                                 values := c1.values.map (· * (f / timestep)) }
+
+/-- The base type `_time_rate_of_change_collection` goes back to. -/
+def rateTarget (R : Reg) (name : String) : Option (String × Rat) :=
+  (R.baseNames.find? fun b =>
+      match R.timeAgg.lookup b with
+      | some (tt, _) => (R.ancestorsOf name).contains tt
+      | none => false).bind fun b => (R.timeAgg.lookup b).map fun p => (b, p.2)
+
+/-- `_time_rate_of_change_collection(timestep)`. -/
+def timeRateOfChange (R : Reg) (c : Coll) (timestep : Rat) : Except Err2 Coll :=
+  match R.rateTarget c.T.name with
+  | none => .error .value
+  | some (b, f) =>
+    match c.toUnitCopy (c.T.units.getD 0 "") with
+    | .error e => .error (liftErr e)
+    | .ok c1 =>
+      match R.find b with
+      | none => .error .attr
+      | some T' => .ok { c1 with T := T', unit := T'.units.getD 0 "",
+                                 values := c1.values.map (· / (f / timestep)) }
+
+end Reg
+
+/-! ### `_is_numeric` and GenericType -/
+
+inductive Err3 where
+  | assert   -- AssertionError of `_is_numeric`
+  | value | attr
+  | type     -- TypeError: arithmetic on a non-number further down the list
+  deriving DecidableEq, Repr
+
+namespace UType
+
+/-- `_is_numeric(values)`: only the first value is looked at (`none` = not a float/int). -/
+def isNumeric (vs : List (Option Rat)) : Bool :=
+  match vs with
+  | [] => true
+  | v :: _ => v.isSome
+
+/-- One leg of `_to_unit_base` on values that may contain non-numbers. -/
+def legRaw (T : UType) (fns : List (Rat → Rat)) (arith : List Bool) (u : String) (vs : List (Option Rat)) :
+    Except Err3 (List (Option Rat)) :=
+  if u = T.base then .ok vs
+  else match T.idx? u with
+    | none => .error .value
+    | some i => match fns[i]? with
+      | none => .error .attr
+      | some f =>
+        if vs.all Option.isSome || !(arith.getD i true) then .ok (vs.map (Option.map f)) else .error .type
+
+/-- `_to_unit_base` including the `_is_numeric` assertion that precedes everything else. -/
+def toUnitRaw (T : UType) (vs : List (Option Rat)) (unit fromUnit : String) : Except Err3 (List (Option Rat)) :=
+  if !isNumeric vs then .error .assert
+  else match T.legRaw T.toBase T.toBaseArith fromUnit vs with
+    | .error e => .error e
+    | .ok v1 => T.legRaw T.fromBase T.fromBaseArith unit v1
+
+end UType
+
+/-- `GenericType(name, unit, min, max)`: one unit, no conversion methods. -/
+structure Generic where
+  unit : String
+  min : Bound
+  max : Bound
+
+inductive GErr where
+  | notimpl   -- NotImplementedError (DataTypeBase.to_unit is not overridden)
+  | value
+  deriving DecidableEq, Repr
+
+namespace Generic
+
+/-- `to_unit` is the base-class stub: it raises whatever the units are (also for the unit held). -/
+def toUnit (_g : Generic) (_values : List Rat) (_unit _fromUnit : String) : Except GErr (List Rat) :=
+  .error .notimpl
+
+/-- `to_ip` / `to_si`: values and unit are handed back untouched, whatever the unit. -/
+def toSys (_g : Generic) (values : List Rat) (fromUnit : String) : List Rat × String := (values, fromUnit)
+
+/-- `Header.__init__` / `is_unit_acceptable`: only the type's own unit. -/
+def acceptable (g : Generic) (u : String) : Bool := u == g.unit
+
+def isInRange (g : Generic) (values : List Rat) (unit : Option String) : Except GErr Bool :=
+  match unit with
+  | none => .ok (UType.rangeCheck g.min g.max values)
+  | some u => if u = g.unit then .ok (UType.rangeCheck g.min g.max values) else .error .value
+
+end Generic
 
 end Units
